@@ -330,13 +330,26 @@ func c28One(ctx context.Context, p *proxy, v int16, spec string) (res string) {
 func c28Main() {
 	w := bufio.NewWriter(os.Stdout)
 	defer w.Flush()
-	p := &proxy{
-		logger:      slog.New(slog.NewTextHandler(io.Discard, nil)),
-		brokerAddrs: make(map[string]string),
-		topicNames:  make(map[[16]byte]string),
+	// ONE proxy (and one store) per session: `cfg` starts a session, every following op up to the
+	// next `cfg` runs on the same *proxy, so whatever the proxy keeps between requests (topic-name
+	// cache, broker-address cache, in-flight table, ...) is carried from op to op.
+	var p *proxy
+	var mem *metadata.InMemoryStore
+	var gate *c28Gate
+	newProxy := func(host string, port int32) {
+		p = &proxy{
+			logger:         slog.New(slog.NewTextHandler(io.Discard, nil)),
+			brokerAddrs:    make(map[string]string),
+			topicNames:     make(map[[16]byte]string),
+			advertisedHost: host,
+			advertisedPort: port,
+			cacheTTL:       time.Minute,
+		}
+		mem = metadata.NewInMemoryStore(metadata.ClusterMetadata{})
+		gate = &c28Gate{Store: mem}
+		p.store = gate
 	}
-	gate := &c28Gate{Store: metadata.NewInMemoryStore(metadata.ClusterMetadata{})}
-	p.store = gate
+	newProxy("", 0)
 	ctx := context.Background()
 	sc := bufio.NewScanner(os.Stdin)
 	sc.Buffer(make([]byte, 1<<20), 1<<26)
@@ -353,15 +366,33 @@ func c28Main() {
 			}()
 			switch {
 			case f[0] == "cfg" && len(f) == 3:
-				p.advertisedHost = c28DecS(f[1])
-				p.advertisedPort = int32(c28Atoi(f[2]))
+				newProxy(c28DecS(f[1]), int32(c28Atoi(f[2])))
 				return "ok"
 			case f[0] == "snap":
+				// the cluster metadata changes under the running proxy (what the etcd watch does:
+				// InMemoryStore.Update with the new snapshot)
 				m, ok := c28ParseMeta(f[1:])
 				if !ok {
 					return "bad-op"
 				}
-				gate.Store = metadata.NewInMemoryStore(m)
+				mem.Update(m)
+				return "ok"
+			case f[0] == "warm" && len(f) == 2:
+				// the real cache refreshes of the proxy (10 s loop / start-up / backend selection)
+				switch f[1] {
+				case "refresh":
+					p.refreshMetadataCache(ctx)
+				case "backends":
+					if _, err := p.currentBackends(ctx); err != nil {
+						return "err"
+					}
+				default:
+					return "bad-op"
+				}
+				return "ok"
+			case f[0] == "resolve" && len(f) == 2:
+				// Fetch/Produce by topic id: resolveTopicID refreshes the caches on a miss
+				_ = p.resolveTopicID(ctx, c28ID(f[1]))
 				return "ok"
 			case f[0] == "par" && len(f) >= 2:
 				// par v:req v:req ...   k overlapping Metadata requests; request 0 is started first and is
